@@ -169,7 +169,7 @@ def run(ctx):
     replay_witnesses(ctx)
     known_classes = load_classes(ctx)
     open_ids = set(f["id"] for f in ctx.open_findings())
-    ne, nr = (12, 60) if ctx.quick else (300, 2500)
+    ne, nr = (25, 120) if ctx.quick else (300, 2500)
     for p in pmap(worker, [("%s/e%d" % (ctx.seed, i), ne, open_ids, known_classes, True) for i in range(NCPU)]): ctx.merge(p)
     for p in pmap(worker, [("%s/r%d" % (ctx.seed, i), nr, open_ids, known_classes, False) for i in range(NCPU)]): ctx.merge(p)
     ctx.rule = ("gap class = (nearest comment-carrying construct, slot inside it, context of the construct); for every program one comment in one representative gap of each of its classes "
